@@ -20,6 +20,7 @@
                     of 2^-24 while floats near 1000 are 2^-43 apart: exact.  (Trusted; also
                     sampled at every threshold ± 1 by the C12 check.)
   * `Py.pairs`    — `zip(*[iter(l)] * 2)`: consecutive pairs, an unpaired last element dropped.
+  * `Py.isascii`, `Py.isdecimal`, `Py.intOfText` — see their doc comments below.
 -/
 namespace Py
 
@@ -48,5 +49,31 @@ def trueDivGt (a b c : Int) : Bool := if 0 < b then decide (a > c * b) else deci
 def pairs {α : Type} : List α → List (α × α)
   | x :: y :: t => (x, y) :: pairs t
   | _ => []
+
+/-! ### strings (`text` = list of code points) -/
+
+/-- Unicode category Nd outside ASCII; its value is irrelevant wherever the code also asks for
+    `isascii()`, so it is left unspecified. -/
+opaque nonAsciiDecimal : Char → Bool
+
+/-- `s.isascii()` (true for the empty string) -/
+def isascii (s : List Char) : Bool := s.all (fun c => decide (c.toNat < 128))
+
+def isDecimalChar (c : Char) : Bool :=
+  if c.toNat < 128 then (48 ≤ c.toNat && c.toNat ≤ 57) else nonAsciiDecimal c
+
+/-- `s.isdecimal()`: non-empty and every character a decimal digit -/
+def isdecimal (s : List Char) : Bool := !s.isEmpty && s.all isDecimalChar
+
+/-- `int(s)`; `none` = `ValueError`.  FAITHFUL ONLY for non-empty strings of ASCII digits: the
+    value in positional notation, or `ValueError` beyond CPython's default limit of 4300 digits
+    (`sys.get_int_max_str_digits()`).  For every other string this reading answers `none`,
+    which is not Python's (`" 12"`, `"+5"`, `"1_0"` convert); the one use in the translated code
+    is behind `isascii() and isdecimal()`, and the tie theorem proves that guard. -/
+def intOfText (s : List Char) : Option Int :=
+  if s ≠ [] ∧ s.all (fun c => 48 ≤ c.toNat && c.toNat ≤ 57) then
+    if s.length > 4300 then none
+    else some ((s.foldl (fun acc c => acc * 10 + (c.toNat - 48)) 0 : Nat) : Int)
+  else none
 
 end Py
